@@ -102,6 +102,7 @@ class Seq(object):
     random.seed(777)
     self.fake = fakereactor.FakeReactor()
     self.fake.transport_hw = getattr(ns, 'transport_hw', None)
+    self.fake.capture_call_errors = True       # reported by report_call_errors()
     client.reactor = self.fake
     client.time = lambda: 1.0e9 + self.fake.seconds()      # lastResetTime / MIN_RESET_INTERVAL on the virtual clock
     instrumentation.stats.clear()
@@ -289,7 +290,17 @@ class Seq(object):
   def apply(self, ev, i=0):
     """Returns False if the event is not applicable in the current state (nothing executed)."""
     self.counters['events'] += 1
-    ok = getattr(self, 'ev_' + ev)(i)
+    try:
+      ok = getattr(self, 'ev_' + ev)(i)
+    except Exception as e:
+      # nothing an event does (arrivals, timers firing, connections coming and going) may raise out of carbon
+      import traceback
+      tb = traceback.extract_tb(e.__traceback__)
+      where = ['%s:%s:%d' % (f.filename.rsplit('/', 1)[-1], f.name, f.lineno) for f in tb if '/carbon/' in f.filename][-2:]
+      if not where:
+        raise
+      self.viol('exception/%s' % type(e).__name__, 'event %s raised %r at %s' % (ev, e, ' <- '.join(reversed(where))))
+      ok = None
     if ok is False:
       self.counters['inapplicable'] += 1
       return False
@@ -320,6 +331,7 @@ class Seq(object):
                     '%d more bytes were written afterwards' % (self._fname(f.destination), t.close_requested_at, len(t.value()) - t.close_requested_at))
         self.counters['closes_by_carbon_observed'] = self.counters.get('closes_by_carbon_observed', 0) + 1
         c.h_connection_lost(Failure(error.ConnectionDone()))
+    self.report_call_errors()
     self.check_invariants()
     if self.state.metricReceiversPaused:
       self.was_paused = True
@@ -339,7 +351,7 @@ class Seq(object):
     except Exception:
       want = None
     n0 = dict((k, len(v)) for k, v in self.entries.items())
-    self.events.metricReceived(name, (self.nid, float(self.nid)))
+    self.events.metricReceived(name, (self.nid, self.value_of(self.nid)))
     if want is not None and not self.stopped:
       took = set(k for k, v in self.entries.items() if any(e['id'] == self.nid for e in v[n0.get(k, 0):]))
       self.counters['routing_evaluations'] = self.counters.get('routing_evaluations', 0) + 1
@@ -353,6 +365,28 @@ class Seq(object):
     if ident % 7 == 3:
       return '%s.agents.host-b.id%d' % (self.settings.CARBON_METRIC_PREFIX, ident)
     return 'id%d' % ident
+
+  def report_call_errors(self):
+    # what a timer-driven call (deferred send, reconnect, statistics) raised: a real reactor logs it and goes on
+    errs = getattr(self.fake, 'call_errors', None)
+    while errs:
+      fn, e = errs.pop(0)
+      import traceback
+      tb = traceback.extract_tb(e.__traceback__)
+      where = ['%s:%s:%d' % (f.filename.rsplit('/', 1)[-1], f.name, f.lineno) for f in tb if '/carbon/' in f.filename][-2:]
+      self.viol('exception/%s' % type(e).__name__, 'delayed call %s raised %r at %s' % (fn, e, ' <- '.join(reversed(where))))
+
+  def value_of(self, ident):
+    """The value is the id, except that now and then it is one of the values a float can also be: the infinities and a
+    fraction (what a client may send, C01, a relay passes on)."""
+    k = ident % 13
+    if k == 5:
+      return float('inf')
+    if k == 9:
+      return float('-inf')
+    if k == 11:
+      return ident + 0.25
+    return float(ident)
 
   def ev_fill(self, i):
     """Macro event: datapoints keep arriving until the receivers get paused (bounded)."""
@@ -370,7 +404,7 @@ class Seq(object):
       return False
     self.nid += 1
     self.counters['hp_arrivals'] += 1
-    self.manager.sendHighPriorityDatapoint(self.name_of(self.nid), (self.nid, float(self.nid)))
+    self.manager.sendHighPriorityDatapoint(self.name_of(self.nid), (self.nid, self.value_of(self.nid)))
 
   def ev_conn_made(self, i):
     c = self.connector(i)
@@ -490,7 +524,7 @@ class Seq(object):
       for (i, m, v) in w:
         if m.startswith(selfp):
           continue            # the relay's own statistics (arbitrary values)
-        if m != self.name_of(i) or v != float(i):
+        if m != self.name_of(i) or v != self.value_of(i):
           self.viol('wire/altered', '%s: datapoint id %d written as (%r, %r)' % (key, i, m, v))
       q = [int(x[1][0]) for x in f.queue]
       cw, ca = Counter(wid), Counter(e['id'] for e in acc)
